@@ -41,7 +41,9 @@ def generate(prop, rng, index, tier):
             vals = [rng.randint(-5, 9) for _ in range(ncell)]
         else:
             vals = [rng.randint(-32, 32) / 4.0 for _ in range(ncell)]
-        if len(set(vals)) < 2 and ncell >= 2:
+        if rng.random() < 0.08:
+            vals = [vals[0]] * ncell                     # a constant field (zero standard deviation)
+        elif len(set(vals)) < 2 and ncell >= 2:
             vals[0] = vals[1] + (0.5 if not is_int else 1) if not fuzzy else -vals[1] if vals[1] else 0.5
         mk = rng.choice(["nomask", "allfalse", "some", "some", "soft"])
         mask = [False] * ncell
